@@ -437,12 +437,25 @@ pub(crate) fn round(val: f64, kwargs: Kwargs, _: &State) -> TeraResult<Value> {
     } else {
         10.0_f64.powi(precision)
     };
+    // 10^precision leaves the f64 range for large |precision|: dividing by it would answer NaN
+    if !multiplier.is_normal() {
+        return Err(Error::message(format!(
+            "`precision` {precision} is out of range for the round filter"
+        )));
+    }
+    // Nothing to round when scaling overflows: a float that large has no fractional digits
+    let scaled = if (multiplier * val).is_finite() {
+        Some(multiplier * val)
+    } else {
+        None
+    };
 
-    match method {
-        Some("ceil") => Ok(((multiplier * val).ceil() / multiplier).into()),
-        Some("floor") => Ok(((multiplier * val).floor() / multiplier).into()),
-        None => Ok(((multiplier * val).round() / multiplier).into()),
-        Some(m) => Err(Error::message(format!(
+    match (method, scaled) {
+        (Some("ceil") | Some("floor") | None, None) => Ok(val.into()),
+        (Some("ceil"), Some(scaled)) => Ok((scaled.ceil() / multiplier).into()),
+        (Some("floor"), Some(scaled)) => Ok((scaled.floor() / multiplier).into()),
+        (None, Some(scaled)) => Ok((scaled.round() / multiplier).into()),
+        (Some(m), _) => Err(Error::message(format!(
             "Invalid argument for `method`: {m}. \
                 Only `ceil` and `floor` are allowed. \
                 Do not fill this parameter if you want a classic round."
